@@ -34,8 +34,13 @@ pub fn run(a: &crate::Args) -> Value {
         #[allow(clippy::clone_on_copy)]
         let xc = x.clone();
         let xcopy = x; // Copy
+        // clone_from into an existing value of every other shape: the destination becomes the source, field by field
+        // (read back structurally, not through ==)
+        let mut dst = y;
+        dst.clone_from(&x);
         writeln!(out, "{}", json!({"a": p["a"], "b": p["b"], "eq": x == y, "ne": x != y, "clone_eq": xc == x, "copy_eq": xcopy == x,
-                                   "clone_vs_b": xc == y, "back": back(&x), "dbg": format!("{:?}", x)})).unwrap();
+                                   "clone_vs_b": xc == y, "back": back(&x), "clone_back": back(&xc), "clone_from_back": back(&dst),
+                                   "dbg": format!("{:?}", x)})).unwrap();
         n += 1;
     }
     out.flush().unwrap();
